@@ -9,5 +9,9 @@ CONSTANTS Addrs <- McAddrs
  MaxRestart = 0
  MaxReads = 0
  LeafOnly = FALSE
+ MaxSlots = 1
+ CanonSlots = TRUE
+ Kinds = {"extra"}
+ IdentByHash = TRUE
 INVARIANTS ViewIsNearestWrite
 CHECK_DEADLOCK FALSE
